@@ -458,6 +458,8 @@ def call_method(eng, recv, meth, args, kwargs, fr, node):
                 r = hook(eng, fr, recv, meth, args, node)
                 if r is not None:
                     return r
+            if meth == "replace":
+                return eng.ext_value("str.replace", [recv] + list(args), fr)
     if recv.k == "str":
         if meth == "format":
             hook = eng.reg.spec.get("__format__")
@@ -470,7 +472,10 @@ def call_method(eng, recv, meth, args, kwargs, fr, node):
                 f = z3.Function(f"fmt:{lit}/{len(args)}", *([V] * max(len(args) + len(kwargs), 1)), V)
                 vs = [eng.as_V(a) for a in args] + [eng.as_V(kwargs[k]) for k in sorted(kwargs)]
                 return SV("V", f(*vs) if vs else f(T.VNone), meta={"fmt": (lit, list(args))})
-            return eng.ext_value("str.format", [recv] + list(args), fr, kwargs)
+            from .state import Event as _Ev
+            res_ = eng.ext_value("str.format", [recv] + list(args), fr, kwargs)
+            fr.st.events.append(_Ev("call", "str.format", [recv] + list(args), dict(kwargs), getattr(node, "lineno", None), extra={"result": res_}))
+            return res_
         if meth == "lower":
             if z3.is_string_value(recv.t):
                 return mk_str(recv.t.as_string().lower())
